@@ -171,6 +171,19 @@ func (r *Recorder) Note(format string, a ...any) {
 	r.res.Notes = append(r.res.Notes, fmt.Sprintf(format, a...))
 }
 
+// NoteOnce adds a note unless the same text was added before.
+func (r *Recorder) NoteOnce(format string, a ...any) {
+	msg := fmt.Sprintf(format, a...)
+	r.mu.Lock()
+	defer r.mu.Unlock()
+	for _, n := range r.res.Notes {
+		if n == msg {
+			return
+		}
+	}
+	r.res.Notes = append(r.res.Notes, msg)
+}
+
 // KnownFinding records that a listed open finding still reproduces.
 func (r *Recorder) KnownFinding(line string) {
 	r.mu.Lock()
